@@ -21,7 +21,8 @@ for id in $ids; do
   for p in $prop $(python3 -c "import json;print(' '.join(json.load(open('$d/meta.json')).get('also_check',[])))"); do
     out=$(./check $p quick ${RUNS:+--runs $RUNS} --out $R/mut-ev.json 2>&1); code=$?
     first=$(echo "$out" | grep -E "^C[0-9]+ \[" | head -1 | cut -c1-140)
-    res="$res $p:exit=$code"
+    runidx=$(echo "$out" | grep -E "^C[0-9]+ \[" | head -1 | grep -o "(run [0-9]*" | head -1 | tr -d '(')
+    res="$res $p:exit=$code [$runidx]"
     [ -n "$first" ] && res="$res {$first}"
   done
   git -C $R/repo checkout -q -- .
